@@ -150,7 +150,8 @@ pub fn generate_swaps(num_vars: usize, rollback: bool) -> Vec<u8> {
     swaps
 }
 
-// Run all swaps on the P canonization, and return the index of the best result
+// Run all swaps on the P canonization, and return the index of the best result:
+// the number of steps performed when it was reached, 0 if the input itself is the best
 pub fn p_canonization_ind(
     num_vars: usize,
     table: &mut [u64],
@@ -162,11 +163,11 @@ pub fn p_canonization_ind(
     let mut ind = 0;
     for swap in all_swaps {
         swap_adjacent_inplace(num_vars, table, *swap as usize);
+        ind += 1;
         if cmp(table, best).is_lt() {
             best_ind = ind;
             best.clone_from_slice(table);
         }
-        ind += 1
     }
     best_ind
 }
@@ -185,11 +186,11 @@ pub fn n_canonization_ind(
         flip_inplace(num_vars, table, *flip as usize);
         for _ in 0..2 {
             not_inplace(num_vars, table);
+            ind += 1;
             if cmp(table, best).is_lt() {
                 best_ind = ind;
                 best.clone_from_slice(table);
             }
-            ind += 1;
         }
     }
     best_ind
@@ -211,11 +212,11 @@ pub fn npn_canonization_ind(
             flip_inplace(num_vars, table, *flip as usize);
             for _ in 0..2 {
                 not_inplace(num_vars, table);
+                ind += 1;
                 if cmp(table, best).is_lt() {
                     best_ind = ind;
                     best.clone_from_slice(table);
                 }
-                ind += 1;
             }
         }
     }
@@ -230,13 +231,17 @@ pub fn p_canonization_res(num_vars: usize, res_perm: &mut [u8], all_swaps: &[u8]
         res_perm[i] = i as u8;
     }
     let mut ind = 0;
+    if ind == best_ind {
+        // The input itself was the best
+        return;
+    }
     for swap in all_swaps {
         let swp = *swap as usize;
         res_perm.swap(swp, swp + 1);
+        ind += 1;
         if ind == best_ind {
             return;
         }
-        ind += 1;
     }
     // Should never arrive there...
     panic!();
@@ -246,14 +251,18 @@ pub fn p_canonization_res(num_vars: usize, res_perm: &mut [u8], all_swaps: &[u8]
 pub fn n_canonization_res(num_vars: usize, all_flips: &[u8], best_ind: usize) -> u32 {
     let mut ind = 0;
     let mut cur_flip = 0;
+    if ind == best_ind {
+        // The input itself was the best
+        return cur_flip;
+    }
     for flip in all_flips {
         cur_flip ^= 1 << *flip;
         for _ in 0..2 {
             cur_flip ^= 1 << num_vars;
+            ind += 1;
             if ind == best_ind {
                 return cur_flip;
             }
-            ind += 1;
         }
     }
     // Should never arrive there...
@@ -274,6 +283,10 @@ pub fn npn_canonization_res(
     }
     let mut ind = 0;
     let mut cur_flip = 0;
+    if ind == best_ind {
+        // The input itself was the best
+        return cur_flip;
+    }
 
     for swap in all_swaps {
         let swp = *swap as usize;
@@ -282,10 +295,10 @@ pub fn npn_canonization_res(
             cur_flip ^= 1 << *flip;
             for _ in 0..2 {
                 cur_flip ^= 1 << num_vars;
+                ind += 1;
                 if ind == best_ind {
                     return cur_flip;
                 }
-                ind += 1;
             }
         }
     }
